@@ -1,5 +1,5 @@
 (* C13 — executable heap model of thermosteam stream object graphs.
-   Source modelled (with the repairs proposed in pending_fixes/C13_1 .. C13_8 applied):
+   Source modelled (as it is at /repo HEAD fd59039, with the repairs proposed in pending_fixes/C13_1 .. C13_4 applied):
      _stream.py       Stream.{__init__, from_data, __reduce__, get_data, set_data, scale, empty, T/P/phase/phases
                       setters, link_with, unlink, copy_like, copy_thermal_condition, copy_phase, copy, flow_proxy, proxy}
      _multi_stream.py MultiStream.{__init__, phases/phase setters, copy_like}
@@ -246,19 +246,18 @@ Definition mat_copy_like_m (h : heap) (r o : ref) : heap * option err :=
         | _ => (h1, Some EOther)
         end end
     else
-      let h1 := mat_empty h d in
-      let orows := rdrows h1 od in
-      let u := nz_union h1 orows (length (chems ko)) in
-      if missing (chems k) (chems ko) u then (h1, Some EKey) else
+      (* index_overlap first (raises before any write), then expand if needed, empty, assign row by row *)
+      let u := nz_union h (rdrows h od) (length (chems ko)) in
+      if missing (chems k) (chems ko) u then (h, Some EKey) else
       let f := remap (chems k) (chems ko) in
-      if same_phases phs ophs then (zip_rows h1 (rdrows h1 d) orows f, None)
-      else
-        let '(h2, e) := if compatible phs ophs then (h1, None) else expand_phases h1 r ophs in
-        match e with Some e => (h2, Some e) | None =>
-        match nth_error h2 r with
-        | Some (CIdxM _ phs2 _) => assign_rows h2 phs2 (rdrows h2 d) ophs (rdrows h2 od) f
-        | _ => (h2, Some EOther)
-        end end
+      let '(h1, e) := if same_phases phs ophs || compatible phs ophs then (h, None) else expand_phases h r ophs in
+      match e with Some e => (h1, Some e) | None =>
+      match nth_error h1 r with
+      | Some (CIdxM _ phs1 _) =>
+        let h2 := mat_empty h1 d in
+        assign_rows h2 phs1 (rdrows h2 d) ophs (rdrows h2 od) f
+      | _ => (h1, Some EOther)
+      end end
   | _, _ => (h, Some EOther)
   end.
 
@@ -270,19 +269,21 @@ Definition src_of (h : heap) (o : ref) : option csrc :=
   | _ => None
   end.
 
-(* ChemicalIndexer.to_material_indexer(phases) *)
+(* ChemicalIndexer.to_material_indexer(phases); empty data is not moved (no phase lookup) *)
 Definition chem_to_material (h : heap) (r : ref) (phs : list nat) : res (heap * ref) :=
   match nth_error h r with
   | Some (CIdxC k pb d) =>
     do pt <- phase_tuple phs;
     let p := rdphase h pb in
     let p' := if memb p phs then p else swapcase p in
-    match pidx pt p' with
-    | None => Err EUndefPhase
-    | Some i =>
-      let (h1, m) := mat_blank h k pt in
-      Ok (wr h1 (length h + i)%nat (CVec (rdvec h d)), m)
-    end
+    if any_nz (rdvec h d) then
+      match pidx pt p' with
+      | None => Err EUndefPhase
+      | Some i =>
+        let (h1, m) := mat_blank h k pt in
+        Ok (wr h1 (length h + i)%nat (CVec (rdvec h d)), m)
+      end
+    else Ok (mat_blank h k pt)
   | _ => Err EOther
   end.
 
@@ -323,6 +324,17 @@ Definition mat_to_chemical (h : heap) (r : ref) (p : nat) : res (heap * ref) :=
 Definition oret := (heap * stream * option err)%type.
 Definition is_multi (h : heap) (s : stream) : bool :=
   match nth_error h (imol s) with Some (CIdxM _ _ _) => true | _ => false end.
+
+(* data rows of a stream (one for a Stream) *)
+Definition data_rows (h : heap) (s : stream) : list ref :=
+  match nth_error h (imol s) with
+  | Some (CIdxC _ _ d) => [d]
+  | Some (CIdxM _ _ d) => rdrows h d
+  | _ => []
+  end.
+
+(* Stream.empty *)
+Definition empty (h : heap) (s : stream) : oret := (wrvecs h (data_rows h s) zero_like, s, None).
 
 (* phases setter of Stream and of MultiStream (dispatch on the class = kind of the indexer) *)
 Definition set_phases (h : heap) (s : stream) (phs : list nat) : oret :=
@@ -387,8 +399,8 @@ Definition copy_like (h : heap) (s o : stream) : oret :=
         let '(h1, e) := chem_copy_like h (imol s) (mkcsrc ko p (nth O (rdrows h od) O) None) in
         match e with Some e => (h1, s, Some e) | None => (tc_copy_like h1 (tc s) (tc o), s, None) end
       | _ =>
-        let (h1, b) := chem_new h (thermo s) (hd O ophs) (zeros (thermo s)) in
-        let '(h2, s2, e) := set_phases h1 (set_imol s b) ophs in
+        let '(h1, _, _) := empty h s in
+        let '(h2, s2, e) := set_phases h1 s ophs in
         match e with Some e => (h2, s2, Some e) | None =>
         let '(h3, e) := mat_copy_like_m h2 (imol s2) (imol o) in
         match e with Some e => (h3, s2, Some e) | None => (tc_copy_like h3 (tc s2) (tc o), s2, None) end end
@@ -481,14 +493,6 @@ Definition unlink (h : heap) (s : stream) : oret :=
   | _ => (h, s, Some EOther)
   end.
 
-(* data rows of a stream (one for a Stream) *)
-Definition data_rows (h : heap) (s : stream) : list ref :=
-  match nth_error h (imol s) with
-  | Some (CIdxC _ _ d) => [d]
-  | Some (CIdxM _ _ d) => rdrows h d
-  | _ => []
-  end.
-
 (* mutators *)
 Definition set_flow (h : heap) (s : stream) (r c : nat) (v : Q) : oret :=
   match nth_error (data_rows h s) r with
@@ -498,7 +502,6 @@ Definition set_flow (h : heap) (s : stream) (r c : nat) (v : Q) : oret :=
 Definition set_T (h : heap) (s : stream) (v : Q) : oret := (wr h (tc s) (CTC v (snd (rdtc h (tc s)))), s, None).
 Definition set_P (h : heap) (s : stream) (v : Q) : oret := (wr h (tc s) (CTC (fst (rdtc h (tc s))) v), s, None).
 Definition scale (h : heap) (s : stream) (k : Q) : oret := (wrvecs h (data_rows h s) (vscale k), s, None).
-Definition empty (h : heap) (s : stream) : oret := (wrvecs h (data_rows h s) zero_like, s, None).
 
 (* constructors *)
 Definition T0 : Q := 5244991919916646 # 17592186044416.   (* the float 298.15 *)
